@@ -118,10 +118,10 @@ theorem c15_chunk_layout_independent (cq : Cq) (off n : Nat) :
 /-- For a grammatical range-set of at most 10 (RMAX_UNSORTED) specs, in any order,
     with optional whitespace, leading zeros and first positions of any magnitude:
     every spec that RFC 9110 calls satisfiable for this length is contained in one
-    of the ranges the response carries.  (`NoClamp`: last-pos < 2^63-1 and
-    suffix-length < 2^63; see `c15_overflow_last_pos_dropped` for what happens beyond.) -/
+    of the ranges the response carries.  No bound on the numbers: see
+    `c15_overflow_numbers_clamped`. -/
 theorem c15_satisfiable_covered (len : Nat) (hlen : 0 < len) (hmax : (len : Int) ≤ LLONG_MAX)
-    (es : List Elem) (hne : es ≠ []) (hwf : ∀ e ∈ es, e.WF) (hnc : ∀ e ∈ es, e.spec.NoClamp)
+    (es : List Elem) (hne : es ≠ []) (hwf : ∀ e ∈ es, e.WF)
     (hcount : es.length ≤ 10) :
     ∀ e ∈ es, ∀ r, e.spec.sem len = some r →
       ∃ p ∈ parse (rangeSetText es) len, p.1 ≤ r.1 ∧ r.2 ≤ p.2 := by
@@ -129,14 +129,14 @@ theorem c15_satisfiable_covered (len : Nat) (hlen : 0 < len) (hmax : (len : Int)
   have hsplit := splitOn_rangeSet es hne hwf
   have hcov := parse_cov_small (s := rangeSetText es) (len := (len : Int))
     (by rw [hsplit]; simpa using hcount) e.text (by rw [hsplit]; exact List.mem_map_of_mem he) r
-    (by rw [parseSpec_elem len (by omega) hmax e (hwf e he) (hnc e he)]; exact hr)
+    (by rw [parseSpec_elem len (by omega) hmax e (hwf e he)]; exact hr)
   exact hcov
 
 /-- The same for up to 128 (RMAX) specs whose satisfiable ranges are listed with
     ascending first positions. -/
 theorem c15_satisfiable_covered_ascending (len : Nat) (hlen : 0 < len)
     (hmax : (len : Int) ≤ LLONG_MAX)
-    (es : List Elem) (hne : es ≠ []) (hwf : ∀ e ∈ es, e.WF) (hnc : ∀ e ∈ es, e.spec.NoClamp)
+    (es : List Elem) (hne : es ≠ []) (hwf : ∀ e ∈ es, e.WF)
     (hcount : es.length ≤ 128)
     (hasc : (es.filterMap (fun e => e.spec.sem len)).Pairwise (fun a b => a.1 ≤ b.1)) :
     ∀ e ∈ es, ∀ r, e.spec.sem len = some r →
@@ -144,7 +144,7 @@ theorem c15_satisfiable_covered_ascending (len : Nat) (hlen : 0 < len)
   intro e he r hr
   have hsplit := splitOn_rangeSet es hne hwf
   have hv : validRanges len (es.map Elem.text) = es.filterMap (fun e => e.spec.sem len) :=
-    validRanges_elems len (by omega) hmax es hwf hnc
+    validRanges_elems len (by omega) hmax es hwf
   have hcov := parse_cov_sorted (s := rangeSetText es) (len := (len : Int))
     (by rw [hsplit]; simpa using hcount) (by rw [hsplit, hv]; exact hasc) r
     (by rw [hsplit, hv]; exact List.mem_filterMap.mpr ⟨e, he, hr⟩)
@@ -184,7 +184,7 @@ theorem c15_416_only_if (rq : Req) (rs : Resp) (h : (rfc7233 rq rs).status = 416
 theorem c15_416_iff (rq : Req) (rs : Resp) (unit : Bytes) (es : List Elem)
     (happ : Applicable rq rs (unit ++ rangeSetText es))
     (hunit : unit.length = 6 ∧ eqIcase unit bytesEq = true)
-    (hne : es ≠ []) (hwf : ∀ e ∈ es, e.WF) (hnc : ∀ e ∈ es, e.spec.NoClamp)
+    (hne : es ≠ []) (hwf : ∀ e ∈ es, e.WF)
     (hlen : rs.body.flatten ≠ []) (hmax : (rs.body.flatten.length : Int) ≤ LLONG_MAX) :
     ((rfc7233 rq rs).status = 416 ↔ ∀ e ∈ es, e.spec.sem rs.body.flatten.length = none) ∧
     ((rfc7233 rq rs).status = 206 ↔ ∃ e ∈ es, (e.spec.sem rs.body.flatten.length).isSome) := by
@@ -209,11 +209,11 @@ theorem c15_416_iff (rq : Req) (rs : Resp) (unit : Bytes) (es : List Elem)
     constructor
     · intro hall e he
       have := hall e.text (List.mem_map_of_mem he)
-      rwa [parseSpec_elem _ (by omega) hmax e (hwf e he) (hnc e he)] at this
+      rwa [parseSpec_elem _ (by omega) hmax e (hwf e he)] at this
     · intro hall p hp
       simp only [List.mem_map] at hp
       obtain ⟨e, he, rfl⟩ := hp
-      rw [parseSpec_elem _ (by omega) hmax e (hwf e he) (hnc e he)]
+      rw [parseSpec_elem _ (by omega) hmax e (hwf e he)]
       exact hall e he
   have hnone_some : (¬ ∀ e ∈ es, e.spec.sem rs.body.flatten.length = none) ↔
       ∃ e ∈ es, (e.spec.sem rs.body.flatten.length).isSome := by
@@ -266,7 +266,7 @@ theorem c15_416_iff (rq : Req) (rs : Resp) (unit : Bytes) (es : List Elem)
 theorem c15_range_response (rq : Req) (rs : Resp) (unit : Bytes) (es : List Elem)
     (happ : Applicable rq rs (unit ++ rangeSetText es))
     (hunit : unit.length = 6 ∧ eqIcase unit bytesEq = true)
-    (hne : es ≠ []) (hwf : ∀ e ∈ es, e.WF) (hnc : ∀ e ∈ es, e.spec.NoClamp)
+    (hne : es ≠ []) (hwf : ∀ e ∈ es, e.WF)
     (hcount : es.length ≤ 10)
     (hlen : rs.body.flatten ≠ []) (hmax : (rs.body.flatten.length : Int) ≤ LLONG_MAX)
     (hsat : ∃ e ∈ es, (e.spec.sem rs.body.flatten.length).isSome) :
@@ -284,7 +284,7 @@ theorem c15_range_response (rq : Req) (rs : Resp) (unit : Bytes) (es : List Elem
         out.body.flatten = multipartBody rep rs.contentType parts)) := by
   intro out rep parts
   have h206 : (rfc7233 rq rs).status = 206 :=
-    (c15_416_iff rq rs unit es happ hunit hne hwf hnc hlen hmax).2.mpr hsat
+    (c15_416_iff rq rs unit es happ hunit hne hwf hlen hmax).2.mpr hsat
   have hb : (withAcceptRanges rs).body = rs.body := (same_withAcceptRanges rs).2.1
   have hct : (withAcceptRanges rs).contentType = rs.contentType := (same_withAcceptRanges rs).2.2.2.2.1
   have hst : (withAcceptRanges rs).status = 200 := by
@@ -301,7 +301,7 @@ theorem c15_range_response (rq : Req) (rs : Resp) (unit : Bytes) (es : List Elem
   obtain ⟨_, hbounds, hcl, hshape⟩ := hpe
   refine ⟨h206, hbounds, ?_, hcl, ?_⟩
   · intro e he' r hr
-    obtain ⟨p, hp, h1, h2⟩ := c15_satisfiable_covered rs.body.flatten.length hpos hmax es hne hwf hnc
+    obtain ⟨p, hp, h1, h2⟩ := c15_satisfiable_covered rs.body.flatten.length hpos hmax es hne hwf
       hcount e he' r hr
     have hin := parse_inB (rangeSetText es) rs.body.flatten.length (by omega) p hp
     refine ⟨toNatRng p, List.mem_map_of_mem hp, ?_, ?_⟩
@@ -311,14 +311,19 @@ theorem c15_range_response (rq : Req) (rs : Resp) (unit : Bytes) (es : List Elem
     · left; exact ⟨a, b, h1, h2, h4⟩
     · right; exact ⟨h1, h3, h4⟩
 
-/-- The documented limit of the code (the one place where it departs from RFC 9110
-    14.1.2): a last-pos of 2^63-1 or more makes the spec invalid instead of
-    "to the end", so `bytes=0-9223372036854775807` on a 10-byte body is answered
-    416 although its first-pos is satisfiable. -/
-theorem c15_overflow_last_pos_dropped :
-    parseSpec (ofString "0-9223372036854775807") 10 = none ∧
-    (Spec.range (ofString "0") (ofString "9223372036854775807")).sem 10 = some (0, 9) ∧
-    parseSpec (ofString "0-9223372036854775806") 10 = some (0, 9) := by
+/-- Numbers beyond the off_t range are harmless (RFC 9110 14.1.1: "recipients MUST
+    anticipate potentially large decimal numerals"): a last-pos of 2^63-1 or more
+    means "to the end", an overflowing suffix-length means "everything", an
+    overflowing first-pos is unsatisfiable.  (Before the fix of
+    http_range_parse_next() the first two made the spec invalid, so
+    `bytes=0-9223372036854775807` was answered 416.) -/
+theorem c15_overflow_numbers_clamped :
+    parseSpec (ofString "0-9223372036854775807") 10 = some (0, 9) ∧
+    parseSpec (ofString "2-99999999999999999999999") 10 = some (2, 9) ∧
+    parseSpec (ofString "-9223372036854775808") 10 = some (0, 9) ∧
+    parseSpec (ofString "-99999999999999999999999") 10 = some (0, 9) ∧
+    parseSpec (ofString "9223372036854775807-") 10 = none ∧
+    (process exResp (ofString "bytes=0-9223372036854775807")).status = 206 := by
   decide
 
 /-! ## Range is ignored (200, full body) when it must be -/
@@ -453,13 +458,12 @@ example : (process { exResp with body := [List.replicate 100 65, List.replicate 
 example : slice (ofString "hello world!") 2 5 = ofString "llo " := by decide
 example : natDec 12 = ofString "12" := by decide
 example : cqRange [ofString "hello ", ofString "world!"] 4 4 = ofString "o wo" := by decide
-example : exElem.WF ∧ exElem.spec.NoClamp ∧ exElem.spec.sem 12 = some (9, 11) := by
-  refine ⟨⟨?_, ?_, ?_, ?_⟩, ?_, by decide⟩
+example : exElem.WF ∧ exElem.spec.sem 12 = some (9, 11) := by
+  refine ⟨⟨?_, ?_, ?_, ?_⟩, by decide⟩
   · show ∀ b ∈ [(32 : UInt8)], isBlank b = true; decide
   · show ∀ b ∈ [(9 : UInt8)], isBlank b = true; decide
   · show ofString "03" ≠ []; decide
   · show ∀ d ∈ ofString "03", isDigit d = true; decide
-  · show ((decVal (ofString "03") : Nat) : Int) < -LLONG_MIN; decide
 example : Applicable exReq exResp (ofString "bytes=2-5") := by
   refine ⟨rfl, rfl, rfl, Or.inl (by decide), rfl, by decide, rfl, rfl⟩
 example : ofString "bytes=2-5" = ofString "bytes=" ++ rangeSetText [⟨[], .range (ofString "2") (ofString "5"), []⟩]
